@@ -8,6 +8,8 @@ CONSTANTS
   AllowCancel = FALSE
   HasNotify = FALSE
   ShutFirst = TRUE
+  Forwarders = {}
+  ForwardRewinds = FALSE
 INVARIANTS Emit
 CONSTRAINT StopWhenFinished
 CHECK_DEADLOCK FALSE
